@@ -413,7 +413,8 @@ def guards_of(body, bb):
         arms = [(v, tb) for v, tb in t["targets"]] + [("otherwise", t["otherwise"])]
         reach = {}
         for v, tb in arms:
-            reach[v] = bb in body.reachable(tb) if tb != bb else True
+            # within one loop iteration: back edges are not followed
+            reach[v] = bb in body.reachable_fwd(tb) if tb != bb else True
         if all(reach.values()):
             # every arm can reach bb: need a stricter notion -- does bb
             # post-dominate? approximate with: arm reaches bb without passing
@@ -464,6 +465,7 @@ TRANSPARENT = {
     "std::ops::Index::index": 0, "std::ops::IndexMut::index_mut": 0,
     "daggy::Walker::iter": 0,
     "std::mem::drop": None,
+    "std::mem::take": 0, "std::mem::replace": 0,
     "interruptible::InterruptibleStreamExt::interruptible_with": 0,
     "std::ops::Try::branch": 0,
     "std::ops::Try::from_output": 0,
